@@ -276,3 +276,81 @@ func VerifC02_ContactActions() {
 	zzverif.Assert(verifMarshal(sess) == verifMarshal(restored), "resuming the restored session resulted in different session JSON")
 	zzverif.Cover("resumed-equal")
 }
+
+// VerifC02_ExitedRuns: a session with runs that exited in earlier sprints:
+// F0 enters a child flow F1, which waits (with a timeout); the first resume —
+// a message, the timeout or a run expiration — ends the child (completed or
+// expired) and the parent goes on to a wait of its own; the second resume
+// leads to a terminal enter_flow (which marks every run of the session as
+// completed, runs that exited sprints ago included) or to the end of the
+// flow. One session is kept alive throughout — and marshalled at each wait,
+// as a host persists it — the other restarts at any subset of the two waits:
+// both produce the same events at each sprint and the same final session
+// JSON.
+// cover: child-expired, child-completed, terminal-enter, restart-at-first-wait, restart-at-second-wait, resumed-equal
+func VerifC02_ExitedRuns() {
+	sa := verifNewAssets()
+	terminal := zzverif.Choice("second-resume-leads-to-terminal-enter", 2) == 1
+	last := verifNodeSpec{kind: vkPlain, dests: [3]int{-1, -1, -1}, nexits: 1}
+	if terminal {
+		last = verifNodeSpec{kind: vkEnterTerm, dests: [3]int{-1, -1, -1}, enter: 2}
+		zzverif.Cover("terminal-enter")
+	}
+	sa.add(verifBuildFlow(0, []verifNodeSpec{
+		{kind: vkEnter, dests: [3]int{1, 1, 1}, enter: 1, hasDef: true},
+		{kind: vkWait, dests: [3]int{2, 2, 2}, hasDef: true},
+		last}))
+	sa.add(verifBuildFlow(1, []verifNodeSpec{{kind: vkWaitTO, dests: [3]int{-1, -1, -1}, hasDef: true}}))
+	sa.add(verifBuildFlow(2, []verifNodeSpec{{kind: vkPlain, dests: [3]int{-1, -1, -1}, nexits: 1}}))
+	verifLazyOutcomes = false
+	verifOutcomes, verifOutcomePos = nil, 0
+	eng := verifEngine(10, 10)
+	restart1 := zzverif.Choice("restart-at-first-wait", 2) == 1
+	restart2 := zzverif.Choice("restart-at-second-wait", 2) == 1
+	first := zzverif.Choice("first-resume", 3)
+
+	start := func() flows.Session {
+		zzverif.ResetEnv()
+		sess, _, err := eng.NewSession(sa, verifManualTrigger(sa, verifContact(sa)))
+		zzverif.Assert(err == nil && sess.Status() == flows.SessionStatusWaiting && len(sess.Runs()) == 2, "setup: the session is not waiting in the child flow")
+		return sess
+	}
+	a, b := start(), start()
+	step := func(restart bool, resume func() flows.Resume, what string) {
+		ma := verifMarshal(a) // the host persists the live session too
+		if restart {
+			var err error
+			b, err = eng.ReadSession(sa, []byte(verifMarshal(b)), assets.PanicOnMissing)
+			zzverif.Assert(err == nil, "a marshalled waiting session could not be read back")
+			zzverif.Assert(verifMarshal(b) == ma, "a session read back from its JSON marshals to different JSON")
+		}
+		zzverif.ResetEnv()
+		sp1, err1 := a.Resume(resume())
+		zzverif.ResetEnv()
+		sp2, err2 := b.Resume(resume())
+		zzverif.Assert(err1 == nil && err2 == nil, "resume failed")
+		zzverif.Assert(verifEventsJSON(sp1) == verifEventsJSON(sp2), "the "+what+" resume of the restarted session produced different events or segments")
+		zzverif.Assert(verifMarshal(a) == verifMarshal(b), "the "+what+" resume of the restarted session resulted in different session JSON")
+	}
+	if restart1 {
+		zzverif.Cover("restart-at-first-wait")
+	}
+	step(restart1, func() flows.Resume {
+		if first == 0 {
+			return verifResumeText("hi")
+		}
+		return verifResume(first)
+	}, "first")
+	zzverif.Assert(a.Status() == flows.SessionStatusWaiting && len(a.Runs()) == 2, "setup: the parent is not waiting after its child ended")
+	if a.Runs()[1].Status() == flows.RunStatusExpired {
+		zzverif.Cover("child-expired")
+	} else {
+		zzverif.Cover("child-completed")
+	}
+	if restart2 {
+		zzverif.Cover("restart-at-second-wait")
+	}
+	step(restart2, func() flows.Resume { return verifResumeText("again") }, "second")
+	zzverif.Assert(a.Status() == flows.SessionStatusCompleted, "the session did not complete")
+	zzverif.Cover("resumed-equal")
+}
